@@ -570,6 +570,14 @@ def var_interval(view, site, ref, busy=()):
         d0 = X - B
         ran = Lin(d0.a, d0.b, d0.c - 1).nonneg(gap)
         inside = any(l is wl[0] for l in loops)
+        # the loop may be left (break / return) before the first decrement: then p == X is possible afterwards
+        bst = (wl[0].get("body") or {}).get("s") if (wl[0].get("body") or {}).get("k") == "Block" else [wl[0].get("body") or {}]
+        for st_ in bst or []:
+            if any(x is ws[0] for x in walk(st_)):
+                break
+            if any(x.get("k") in ("Break", "Return", "Goto") for x in walk(st_)):
+                ran = False
+                break
         if ran and not inside:
             return B, X.shift(-1), desc
         return B, X, desc
@@ -788,6 +796,52 @@ def check_w_counters(ck, view, inst, inner_event_ids):
                     s["lo"], s["hi"], e["lo"], e["hi"], ", ".join(why)))
         ck.ob(rule, key, not problems, "; ".join(problems) if problems else "index in [%s, %s] (%s): absolute level, covered by the entry reset" % (s["lo"], s["hi"], s["desc"]),
               view.fn.file, s["n"].get("l"), sample={"range": "[%s, %s]" % (s["lo"], s["hi"]), "from": s["desc"]})
+    # the level the triple prol / peak / rest visits is the level whose counter this iteration increments ("increment the
+    # counter of our peak level"): both are <variable + constant> over one variable that is not written in between.  The
+    # majority offset of cycle_labels() hides a uniform shift of all three level arguments; this comparison does not.
+    # ... and it is an intermediate level: prol / rest at level l touch level l+1, so l <= last-1 (and l >= top)
+    seen_rng = set()
+    for e in inner_event_ids:
+        ev = classify(view, e)
+        lv = ev.get("level") if ev else None
+        if lv is None or lv[0] != "v" or lv[1] not in view.locals or (lv[1], lv[2]) in seen_rng:
+            continue
+        seen_rng.add((lv[1], lv[2]))
+        try:
+            lo, hi, desc = var_interval(view, view.byid[e], {"d": lv[1], "n": view.level_name((lv[0], lv[1], 0))})
+        except (NotImplementedError, KeyError):
+            continue
+        lo, hi = lo.shift(lv[2]), hi.shift(lv[2])
+        g = site_gap(view, view.byid[e])
+        okr = (lo - TOP).nonneg(g) and (LAST.shift(-1) - hi).nonneg(g)
+        ck.ob(rule, "%s/peak level %s within [top, last-1]" % (inst, view.level_name(lv)), okr,
+              "visited level in [%s, %s] (%s)" % (lo, hi, desc) + ("" if okr else ": not within [top, last-1] — the helper would touch a level outside the level range of this multigrid"),
+              view.fn.file, view.byid[e].get("l"))
+    incs = [s for s in sites if s["kind"] == "incr" and s["inw"]]
+    if len(incs) == 1 and inner_event_ids:
+        ilv = view.level(incs[0]["n"]["a"][1])
+        inc_id = incs[0]["n"]["i"]
+        par = view.parent.get(inc_id)
+        while par is not None and view.pos(inc_id) is None:
+            inc_id, par = par.get("i"), view.parent.get(par.get("i"))
+        if ilv is not None and ilv[0] == "v" and view.pos(inc_id) is not None:
+            between = view.flow_from(inc_id, stop=tuple(inner_event_ids))[0]
+            if not any(w.get("i") in between for w in view.writes.get(ilv[1], [])):
+                bad = []
+                same = 0
+                for e in inner_event_ids:
+                    ev = classify(view, e)
+                    lv = ev.get("level") if ev else None
+                    if lv is None or lv[0] != "v" or lv[1] != ilv[1] or e not in between and e not in view.flow_from(inc_id)[0]:
+                        continue
+                    same += 1
+                    if lv[2] != ilv[2]:
+                        bad.append("%s(%s)" % (ev["helper"], view.level_name(lv)))
+                if same:
+                    ck.ob(rule, "%s/visited peak is the counted level" % inst, not bad,
+                          ("%s while the counter of level %s is incremented: the visited level is not the peak level found by the counter search" % (", ".join(bad), view.level_name(ilv)))
+                          if bad else "prol / peak / rest visit level %s, whose counter is incremented" % view.level_name(ilv),
+                          view.fn.file, incs[0]["n"].get("l"))
 
 
 # -------------------------------------------------------------------------------------------------
